@@ -371,3 +371,78 @@ c07_w!(c07_w_reference_second_candidate_rc, 1, 1, true);
 c07_w!(c07_w_set_second_candidate_rc, 2, 1, true);
 c07_w!(c07_w_set_second_candidate_plain, 2, 1, false);
 c07_w!(c07_w_deref_absent_key, 0, 2, true);
+
+// =====================================================================================
+// C10.N3c: the same five ref-count steps with the ref-count *page* operations by contract
+// (`RefCountTable::{get, write_insert_plan, write_remove_plan}` = one slot of a store model: present/absent, count, slot
+// number; replace needs the slot `get` reported; removal needs a present entry) — the page-level code is C10.E1/M1/G3.
+// Real code: HashColumn::{write_address_inc_ref_plan, write_address_dec_ref_plan, search_all_ref_count, search_ref_count,
+// write_ref_count_plan_existing, write_ref_count_plan_new}, the in-memory count cache, and the release of the node slot
+// when the last reference goes (ValueTable::write_remove_plan: real).
+// =====================================================================================
+pub static mut RS_PRESENT: bool = false;
+pub static mut RS_COUNT: u64 = 0;
+pub static mut RS_SLOT: usize = 0;
+pub static mut RS_ADDR: u64 = 0;
+pub static mut RS_INSERTS: usize = 0;
+pub static mut RS_REMOVES: usize = 0;
+pub fn stub_rc_get<Q: LogQuery>(_t: &RefCountTable, address: Address, _log: &Q) -> Result<Option<(u64, usize)>> {
+	unsafe { assert!(address.as_u64() == RS_ADDR, "harness: one node address"); Ok(if RS_PRESENT { Some((RS_COUNT, RS_SLOT)) } else { None }) }
+}
+pub fn stub_rc_insert(_t: &RefCountTable, address: Address, ref_count: u64, sub_index: Option<usize>, _l: &mut LogWriter) -> Result<PlanOutcome> {
+	unsafe {
+		assert!(address.as_u64() == RS_ADDR, "harness: one node address");
+		match sub_index {
+			Some(s) => assert!(RS_PRESENT && s == RS_SLOT, "C10.N3 a count is replaced in the slot that holds it"),
+			None => { assert!(!RS_PRESENT, "C10.N3 a second entry for the same node is never inserted"); RS_SLOT = kani::any(); kani::assume(RS_SLOT < 64); },
+		}
+		assert!(ref_count > 1, "C10.N3 only counts above one are stored (one reference is implicit)");
+		RS_PRESENT = true; RS_COUNT = ref_count; RS_INSERTS += 1;
+	}
+	Ok(PlanOutcome::Written)
+}
+pub fn stub_rc_remove(_t: &RefCountTable, address: Address, sub_index: usize, _l: &mut LogWriter) -> Result<PlanOutcome> {
+	unsafe {
+		assert!(address.as_u64() == RS_ADDR && RS_PRESENT && sub_index == RS_SLOT, "C10.N3 the entry is removed from the slot that holds it");
+		RS_PRESENT = false; RS_REMOVES += 1;
+	}
+	Ok(PlanOutcome::Written)
+}
+
+crate::verif_tbl! {
+#[kani::proof]
+#[kani::unwind(66)]
+#[kani::stub(crate::ref_count::RefCountTable::get, stub_rc_get)]
+#[kani::stub(crate::ref_count::RefCountTable::write_insert_plan, stub_rc_insert)]
+#[kani::stub(crate::ref_count::RefCountTable::write_remove_plan, stub_rc_remove)]
+fn c10_n3c_ref_count_steps_composed() {
+	let col = mini_mt(false, Vec::new(), 4, 0);
+	let overlays = vl::new_overlays();
+	let mut w = LogWriter::new(&overlays, 1);
+	let off: u64 = kani::any();
+	kani::assume(off >= 1 && off <= 3);
+	let addr = Address::new(off, 0);
+	unsafe { RS_PRESENT = false; RS_ADDR = addr.as_u64(); RS_INSERTS = 0; RS_REMOVES = 0; }
+	let cache_of = |col: &HashColumn| -> Option<u64> { col.ref_count_cache.as_ref().unwrap().read().get(&addr.as_u64()).cloned() };
+	let table_of = || -> Option<u64> { unsafe { if RS_PRESENT { Some(RS_COUNT) } else { None } } };
+	col.write_address_inc_ref_plan(addr.as_u64(), &mut w).unwrap();
+	assert!(table_of() == Some(2) && cache_of(&col) == Some(2), "C10.N3 first extra reference stores 2");
+	col.write_address_inc_ref_plan(addr.as_u64(), &mut w).unwrap();
+	assert!(table_of() == Some(3) && cache_of(&col) == Some(3), "C10.N3 second extra reference stores 3");
+	let (remains, _) = col.write_address_dec_ref_plan(addr.as_u64(), &mut w).unwrap();
+	assert!(remains && table_of() == Some(2) && cache_of(&col) == Some(2), "C10.N3 dereference at 3 stores 2");
+	let (remains, _) = col.write_address_dec_ref_plan(addr.as_u64(), &mut w).unwrap();
+	assert!(remains && table_of().is_none() && cache_of(&col).is_none(), "C10.N3 dereference at 2 removes the entry, node stays");
+	assert!(unsafe { vl::OV_WRITES } == 0, "C10.N3 node storage untouched while referenced");
+	let (remains, _) = col.write_address_dec_ref_plan(addr.as_u64(), &mut w).unwrap();
+	assert!(!remains, "C10.N3 last dereference reports the node gone");
+	let mut out = [0u8; 10];
+	assert!(vl::rec_get(&w, ValueTableId::new(0, 0), off, &mut out) && out[0] == 0xff && out[1] == 0xff, "C10.N3 last dereference frees the node slot");
+	{
+		let tables = col.tables.read();
+		assert!(vt::last_removed_of(&tables.value[0]) == off, "C10.N3 freed node slot joins the free list");
+	}
+	kani::cover!(unsafe { RS_INSERTS } == 3 && unsafe { RS_REMOVES } == 1);
+	std::mem::forget(w); std::mem::forget(overlays); std::mem::forget(col);
+}
+}
